@@ -146,6 +146,11 @@ bool OsslEndpoint::create(OsslShared *sh, bool resume) {
     BIO *r = BIO_new(BIO_s_mem()), *w = BIO_new(BIO_s_mem());
     BIO_set_mem_eof_return(r, -1); BIO_set_mem_eof_return(w, -1);
     SSL_set_bio(ssl, r, w); rbio_ = r; wbio_ = w;
+    if (cfg.dtls) {
+        // memory BIOs carry no path MTU: tell the library one, and never let it wait on a timer (the simulated link is lossless)
+        SSL_set_options(ssl, SSL_OP_NO_QUERY_MTU);
+        SSL_set_mtu(ssl, 1400);
+    }
     if (cfg.server) { SSL_set_accept_state(ssl); }
     else {
         SSL_set_connect_state(ssl);
